@@ -3,6 +3,7 @@
    model C07.Defs shared with C07) and ProofsBuddy*.v (buddy allocator model of C08.Defs). *)
 From CppcmsV Require Import Base.Tac C07.Defs C07.Spec C07.Util C07.ProofsInv C08.Defs C08.ProofsCache.
 From CppcmsV Require Import C08.BuddyArith C08.ProofsBuddy C08.ProofsBuddy2 C08.ProofsBuddy3 C08.ProofsBuddy4 C08.ProofsBuddy5.
+From CppcmsV Require Import C08.ResDefs C08.ProofsRes C08.ProofsRes2 C08.Link C08.LinkGuards gen.Gen_C08_hashmap gen.Gen_C08_guards.
 Local Open Scope N_scope.
 
 (* ------------------------------------------------------------------------------------------------ *)
@@ -53,6 +54,22 @@ Theorem check_limits_is_victim_loop : forall f now nem s,
   else s.
 Proof. exact check_limits_loop_unfold. Qed.
 Print Assumptions check_limits_is_victim_loop.
+
+(* the same unfolding with the two guards GENERATED from the current src/cache_storage.cpp (coq/gen/Gen_C08_guards.v: the while
+   condition of check_limits and the expired-first test, cut out of the source and translated by tools/cxx2v.py; LinkGuards.v) *)
+Theorem check_limits_loop_runs_the_source_guards : forall f now nem s,
+  check_limits_loop (S f) now nem s =
+  if g_c08_must_evict (Z.of_N (size s)) (Z.of_N (limit s)) (match nem with b :: _ => b | [] => false end) then
+    match (match timeout s with
+           | (d, k) :: _ => if g_c08_expired_first true d now then Some k else last_opt (lru s)
+           | [] => if g_c08_expired_first false 0%Z now then None else last_opt (lru s)
+           end) with
+    | Some k => check_limits_loop f now (tl nem) (delete_node k s)
+    | None => s
+    end
+  else s.
+Proof. intros f now nem s. rewrite link_must_evict, <- link_first_victim. exact (check_limits_loop_unfold f now nem s). Qed.
+Print Assumptions check_limits_loop_runs_the_source_guards.
 
 Theorem victim_always_exists : forall now s, Inv s -> 0 < size s -> exists k, first_victim now s = Some k.
 Proof. exact first_victim_some. Qed.
@@ -174,4 +191,109 @@ Example buddy_nonvacuous :
   map (b_fl (snd r2)) [5;6;7;8;9] = [[960]; [896]; []; []; [0]] /\
   map (b_fl s4) [5;6;7;8;9] = map (b_fl s0) [5;6;7;8;9] /\
   total_free_memory (snd r2) = 560 /\ total_free_memory s4 = 912.
+Proof. vm_compute. repeat split; reflexivity. Qed.
+
+(* ------------------------------------------------------------------------------------------------ *)
+(* 5. conservation across cache and allocator (resource model C08.ResDefs: the containers of mem_cache<process_settings>
+      OVER the buddy model; every allocation inside store - value copy, int_key, bucket vectors, the node of primary, the key
+      copy INSIDE that node, lru node, timeout node, trigger name, node of triggers, name copy inside it, the two list nodes -
+      is a b_malloc that fails whenever the allocator state says so; F = blocks of other tenants of the segment, arbitrary).
+      `src_prot` is read off the current private/hash_map.h (Link.link_allocate_protected): basic_map::allocate gives the
+      node back when constructing the element throws.                                                              *)
+Definition src_prot : bool := allocate_protected g_allocate_copy.
+Definition k16 : key := [75;49;50;51;52;53;54;55;56;57;48;49;50;51;52;53].
+
+(* no orphan block, no dangling record: after ANY history the in-use pages of the segment are exactly the blocks recorded
+   under the cache indexes plus those of the other tenants, each once *)
+Theorem no_orphan_blocks : forall ms F ops r0, ms - self_size < 2 ^ 63 -> RI ms F r0 ->
+  let r := rrun src_prot ops r0 in
+  breach ms (r_a r) /\ NoDup (ptrs r ++ F) /\
+  (forall o b, used (r_a r) o b -> In (o + 16) (ptrs r ++ F)) /\
+  (forall p, In p (ptrs r ++ F) -> 16 <= p /\ exists b, used (r_a r) (p - 16) b).
+Proof. unfold src_prot. rewrite link_allocate_protected. exact conservation_any_history. Qed.
+Print Assumptions no_orphan_blocks.
+
+(* whatever fails inside a store - and whether or not basic_map::allocate is protected - the blocks recorded between
+   operations all belong to the four indexes: no int_key, tr, converted pair, ar or pending node survives (`clean`) *)
+Theorem no_temporaries_between_operations : forall prot ops r, clean r -> clean (rrun prot ops r).
+Proof. intros prot ops r. exact (clean_rrun prot ops r). Qed.
+Print Assumptions no_temporaries_between_operations.
+
+(* any limit: a clear() that does not throw leaves nothing recorded but the two bucket vectors; the in-use pages are those
+   vectors and the blocks of the other tenants *)
+Theorem clear_without_throw_leaves_only_bucket_vectors : forall ms F ops r0, ms - self_size < 2 ^ 63 -> RI ms F r0 -> clean r0 ->
+  let r1 := rrun src_prot ops r0 in
+  snd (nl_clear r1) = true ->
+  let r := rclear r1 in
+  only is_tv r /\ forall o, (exists b, used (r_a r) o b) <-> In (o + 16) (ptrs r ++ F).
+Proof. unfold src_prot. rewrite link_allocate_protected. exact clear_ok_leaves_vectors. Qed.
+Print Assumptions clear_without_throw_leaves_only_bucket_vectors.
+
+(* limit 0: clear() can not throw; afterwards the cache records no block and the in-use pages are exactly those of the other tenants *)
+Theorem clear_releases_everything : forall ms F ops r0, ms - self_size < 2 ^ 63 -> RI ms F r0 -> clean r0 -> r_limit r0 = 0 ->
+  let r := rclear (rrun src_prot ops r0) in
+  r_b r = [] /\ forall o, (exists b, used (r_a r) o b) <-> In (o + 16) F.
+Proof. unfold src_prot. rewrite link_allocate_protected. exact clear_leaves_other_tenants_only. Qed.
+Print Assumptions clear_releases_everything.
+
+(* fill, exhaust, clear, refill - indefinitely (limit 0): a cache that has the segment for itself leaves after clear() the page
+   headers and free lists (as sets) of the freshly constructed allocator - every page coalesced back, whatever failed in between *)
+Theorem exhaust_clear_restores_fresh_segment : forall ms ops, ms - self_size < 2 ^ 63 ->
+  let r := rclear (rrun src_prot ops (r_init (b_init ms) 0)) in
+  (forall o b u, b_hdr (r_a r) o = Some (b, u) <-> b_hdr (b_init ms) o = Some (b, u)) /\
+  (forall o b, In o (b_fl (r_a r) b) <-> In o (b_fl (b_init ms) b)).
+Proof. unfold src_prot. rewrite link_allocate_protected. exact clear_restores_fresh_segment. Qed.
+Print Assumptions exhaust_clear_restores_fresh_segment.
+
+(* REFUTED for limit >= 16 (finding 1 of docs/C08.md; the premise `snd (nl_clear r1) = true` above can fail): nl_clear() re-creates
+   the bucket vector of primary while the trigger index still holds its blocks.  16 KiB segment, limit 64: one store with 80 trigger
+   names of 20 bytes exhausts the segment, the nl_clear() of the bad_alloc handler throws: afterwards no entry is recorded but 108
+   blocks of the trigger index still are, clear() throws again and releases nothing (2464 of 12256 bytes free).  Replayed on the real
+   cache: `exh 16 64 1000 40 M S:16:0:80:20-20:1 M C M` answers s!1/34 ... c!1/34. *)
+Theorem limited_cache_clear_throws_refuted :
+  let r0 := rclear (r_init (b_init 16928) 64) in
+  let r1 := rrun true [RStore k16 [] (map (fun i => i :: repeat 116 19) (nseq 0 80)) []] r0 in
+  length (r_b r0) = 2%nat /\ total_free_memory (r_a r0) = 12256 /\
+  count is_pn r1 = 0 /\ count trigger_side r1 = 108 /\ snd (nl_clear r1) = false /\
+  total_free_memory (r_a (rclear r1)) = 2464.
+Proof. vm_compute. repeat split; reflexivity. Qed.
+Print Assumptions limited_cache_clear_throws_refuted.
+
+(* the catch block of basic_map::allocate is necessary: without it (prot = false) one store of a 16-byte key into a segment
+   with 448 usable bytes - the key copy inside the freshly allocated node fails - leaves the 256-byte page of the node in use
+   after clear() although the cache records no block; with it the same history gives the page back *)
+Theorem unprotected_allocate_orphans_the_node :
+  let hist := [RStore k16 [] [] []] in
+  let bad := rclear (rrun false hist (r_init (b_init 992) 0)) in
+  let good := rclear (rrun true hist (r_init (b_init 992) 0)) in
+  r_b bad = [] /\ b_hdr (r_a bad) 0 = Some (8, true) /\ total_free_memory (r_a bad) = 160 /\
+  r_b good = [] /\ b_hdr (r_a good) 0 = Some (8, false) /\ total_free_memory (r_a good) = total_free_memory (b_init 992).
+Proof. vm_compute. repeat split; reflexivity. Qed.
+Print Assumptions unprotected_allocate_orphans_the_node.
+
+(* non-vacuity: a segment of 4096 usable bytes; the first store goes through (10 blocks recorded), the second one (four long
+   and seven short trigger names) runs out of memory inside the trigger index and clears the cache: everything is back; a third
+   store goes through again *)
+Example conservation_nonvacuous :
+  let t1 : key := [84;49;50;51;52;53;54;55;56;57;48;49;50;51;52;53;54;55;56;57] in
+  let t2 : key := [85;49;50;51;52;53;54;55;56;57;48;49;50;51;52;53;54;55;56;57] in
+  let t3 : key := [86;49;50;51;52;53;54;55;56;57;48;49;50;51;52;53;54;55;56;57] in
+  let r1 := rrun true [RStore k16 [] [] []] (r_init (b_init 4640) 0) in
+  let r2 := rrun true [RStore [1] [] [t1; t2; t3; k16; [2]; [3]; [4]; [5]; [6]; [7]; [8]] []] r1 in
+  let r3 := rrun true [RStore k16 [] [t1] []] r2 in
+  (length (r_b r1) = 10%nat /\ total_free_memory (r_a r1) = 3136) /\
+  (r_b r2 = [] /\ total_free_memory (r_a r2) = total_free_memory (b_init 4640)) /\
+  length (r_b r3) = 14%nat.
+Proof. vm_compute. repeat split; reflexivity. Qed.
+Example conservation_premise_nonvacuous : RI 4640 [] (r_init (b_init 4640) 0) /\ clean (r_init (b_init 4640) 0).
+Proof. split; [apply RI_init; vm_compute; reflexivity|reflexivity]. Qed.
+
+(* failure injection (RInject): the fifth allocation of a store of a 16-byte key - the key copy inside the freshly allocated node of
+   primary - throws although the segment (64 KiB) has plenty of room.  Protected allocate: everything is back after clear();
+   unprotected: the 256-byte page of the node at offset 256 stays in use with nothing recorded (this is what `inj` replays on the real
+   thread_shared cache: the heap footprint grows by 136 bytes from k = 6 on when the value is long, k = 5 here) *)
+Example injected_failure_at_the_key_copy :
+  let run p := rclear (rrun p [RInject [false; false; false; false; true]; RStore k16 [] [] []] (r_init (b_init 66080) 0)) in
+  (r_b (run true) = [] /\ total_free_memory (r_a (run true)) = total_free_memory (b_init 66080)) /\
+  (r_b (run false) = [] /\ b_hdr (r_a (run false)) 256 = Some (8, true) /\ total_free_memory (r_a (run false)) = 65152).
 Proof. vm_compute. repeat split; reflexivity. Qed.
